@@ -28,16 +28,19 @@ log_cb(LY_LOG_LEVEL level, const char *msg, const char *data_path, const char *s
     (void)level; (void)msg; (void)data_path; (void)schema_path; (void)line;
 }
 
-/* assert() of the included code ends the case with the result "A" */
+/* assert() of the included code ends the case with the result "A"; when the reader had already run over the
+ * end of its input at that moment the result is "E3" (the model stops at the overrun) */
 static jmp_buf vjmp;
 static int vjmp_armed = 0;
+static struct ly_in *vin = NULL;
+static size_t vin_len = 0;
 
 void
 __assert_fail(const char *assertion, const char *file, unsigned int line, const char *function)
 {
     if (vjmp_armed) {
         vjmp_armed = 0;
-        longjmp(vjmp, 1);
+        longjmp(vjmp, (vin && ((size_t)(vin->current - vin->start) > vin_len)) ? 3 : 1);
     }
     fprintf(stderr, "assert %s %s:%u %s\n", assertion, file, line, function);
     abort();
@@ -175,6 +178,8 @@ run_reader(struct sop *ops, size_t n, const unsigned char *data, size_t len, str
     memcpy(buf, data, len);
     ly_in_new_memory(buf, &in);
     lybctx->in = in;
+    vin = in;
+    vin_len = len;
 
     for (size_t i = 0; (i < n) && !rc; i++) {
         switch (ops[i].kind) {
@@ -205,6 +210,7 @@ run_reader(struct sop *ops, size_t n, const unsigned char *data, size_t len, str
         }
     }
     *consumed = in->current - buf;
+    vin = NULL;
     ly_in_free(in, 0);
     free(buf);
     return rc;
@@ -240,8 +246,9 @@ main(void)
             rctx.ctx = ctx;
             ly_out_new_memory(&mem, 0, &out);
             vjmp_armed = 1;
-            if (setjmp(vjmp)) {
-                printf("A");
+            if ((rc = setjmp(vjmp))) {
+                printf(rc == 3 ? (!strcmp(comp, "lybrt") ? "BAD R-E3" : "E3") : "A");
+                vin = NULL;
             } else {
                 rc = run_writer(ops, n, out, &wctx);
                 if (!strcmp(comp, "lybw")) {
@@ -303,8 +310,9 @@ main(void)
             memset(&rctx, 0, sizeof rctx);
             rctx.ctx = ctx;
             vjmp_armed = 1;
-            if (setjmp(vjmp)) {
-                printf("A");
+            if ((rc = setjmp(vjmp))) {
+                printf(rc == 3 ? "E3" : "A");
+                vin = NULL;
                 if (rctx.in) {
                     /* input buffer of the interrupted run */
                     free((char *)rctx.in->start);
@@ -375,7 +383,7 @@ main(void)
                 p += l + (e ? 1 : 0);
             }
             snprintf(yang + off, cap - off, "}");
-            if (ly_ctx_new(NULL, 0, &sctx) || lys_parse_mem(sctx, yang, LYS_IN_YANG, &mod)) {
+            if (ly_ctx_new(NULL, LY_CTX_NO_YANGLIBRARY, &sctx) || lys_parse_mem(sctx, yang, LYS_IN_YANG, &mod)) {
                 printf("SCHEMA");
             } else {
                 lyb_cache_module_hash(mod);
